@@ -52,10 +52,11 @@ type netGenOpts struct {
 	edgeProb                       float64
 	weightScale                    float64
 	acts                           []neatmath.NodeActivationType
-	reachable                      bool // every neuron gets a predecessor (so it is reachable from a sensor)
-	backEdges                      int  // number of edges against the order (cycles, self-loops)
+	reachable                      bool    // every neuron gets a predecessor (so it is reachable from a sensor)
+	backEdges                      int     // number of edges against the order (cycles, self-loops)
 	flagForward                    float64 // probability that a forward edge carries the recurrent label
 	timeDelayed                    float64 // probability that a link is time delayed
+	outToOut                       float64 // probability of a forward link from an output to a later output
 	chain                          bool    // every hidden neuron is fed by its predecessor (a chain through all hidden neurons)
 }
 
@@ -95,6 +96,13 @@ func genNet(r *rand.Rand, o netGenOpts) *netSpec {
 		for u := 0; u < maxU; u++ {
 			if r.Float64() < o.edgeProb {
 				add(u, v, false)
+			}
+		}
+		if s.isOutput(v) && o.outToOut > 0 {
+			for u := ns + s.NHid; u < v; u++ {
+				if r.Float64() < o.outToOut {
+					add(u, v, false) // an output that feeds a later output (still acyclic)
+				}
 			}
 		}
 	}
@@ -330,7 +338,7 @@ func (s *netSpec) buildModular(mods []netModule) *network.Network {
 			out = append(out, nd)
 		}
 	}
-	var control []*network.NNode
+	control := []*network.NNode{}
 	for k, m := range mods {
 		cn := network.NewNNode(s.total()+1+k, network.HiddenNeuron)
 		cn.ActivationType = m.Act
